@@ -299,20 +299,78 @@ func litHasKey(info *types.Info, body *ast.BlockStmt, lit *ast.CompositeLit, fie
 	if holder == nil {
 		return false
 	}
-	found := false
-	ast.Inspect(body, func(n ast.Node) bool {
-		if as, ok := n.(*ast.AssignStmt); ok && as.Pos() > lit.Pos() {
-			for _, l := range as.Lhs {
-				if sel, ok := ast.Unparen(l).(*ast.SelectorExpr); ok && sel.Sel.Name == field {
-					if id, ok := ast.Unparen(sel.X).(*ast.Ident); ok && info.ObjectOf(id) == holder {
-						found = true
+	assigns := func(n ast.Node) bool {
+		found := false
+		ast.Inspect(n, func(m ast.Node) bool {
+			if as, ok := m.(*ast.AssignStmt); ok && as.Pos() > lit.Pos() {
+				for _, l := range as.Lhs {
+					if sel, ok := ast.Unparen(l).(*ast.SelectorExpr); ok && sel.Sel.Name == field {
+						if id, ok := ast.Unparen(sel.X).(*ast.Ident); ok && info.ObjectOf(id) == holder {
+							found = true
+						}
 					}
 				}
 			}
+			return true
+		})
+		return found
+	}
+	// on every path: a plain statement of a block the literal's statement is in, an if/else whose
+	// branches all assign, or a switch with a default whose clauses all assign
+	for _, n := range core.PathTo(body, lit) {
+		blk, ok := n.(*ast.BlockStmt)
+		if !ok {
+			continue
 		}
-		return true
-	})
-	return found
+		for _, st := range blk.List {
+			if st.Pos() < lit.Pos() {
+				continue
+			}
+			switch x := st.(type) {
+			case *ast.AssignStmt:
+				if assigns(x) {
+					return true
+				}
+			case *ast.IfStmt:
+				all := true
+				var cur ast.Stmt = x
+				for cur != nil {
+					ifs, isIf := cur.(*ast.IfStmt)
+					if !isIf {
+						if !assigns(cur) {
+							all = false
+						}
+						break
+					}
+					if !assigns(ifs.Body) {
+						all = false
+					}
+					if ifs.Else == nil {
+						all = false
+					}
+					cur = ifs.Else
+				}
+				if all {
+					return true
+				}
+			case *ast.SwitchStmt:
+				all, hasDefault := true, false
+				for _, cl := range x.Body.List {
+					cc := cl.(*ast.CaseClause)
+					if cc.List == nil {
+						hasDefault = true
+					}
+					if !assigns(cc) {
+						all = false
+					}
+				}
+				if all && hasDefault {
+					return true
+				}
+			}
+		}
+	}
+	return false
 }
 
 // c19Reason: a message function that answers with the reason alone gets something to answer with.
